@@ -80,6 +80,10 @@ def pack_attrs(a, do_spacing=False):
         new_attrs['spacing']=list(get_spacing(a))
 
     for attr, val in a.attrs.items():
+        if isinstance(val, xr.DataArray) and val.ndim == 0:
+            # (e.g. the noise_sd that load_average computes) has no
+            # coordinates to record: store the number itself
+            val = val.item()
         if isinstance(val, xr.DataArray):
             new_attrs[attr_coords][attr] = {}
             for dim in val.dims:
